@@ -1,6 +1,7 @@
 package rules
 
 import (
+	"go/types"
 	"go/token"
 	"strings"
 
@@ -231,6 +232,41 @@ func runC21(c *core.Ctx) {
 		for _, s := range core.Sites(isUsed) {
 			if strings.HasSuffix(s.Callee, "iavl.ImmutableTree).Get") && strings.Contains(core.Path(s.Arg(0)), "check.Hash()") {
 				treeRead = true
+			}
+		}
+		// every in-memory field the once-only decision reads is maintained when the tree changes:
+		// the decision combines "pending in this block" with "in the committed tree"; a field that
+		// Commit / SetImmutableTree never writes keeps answers computed from an older tree
+		if ct := c.Named(core.PkgState+"/checks", "Checks"); ct != nil {
+			st := ct.Underlying().(*types.Struct)
+			for i := 0; i < st.NumFields(); i++ {
+				f := st.Field(i)
+				ts := f.Type().String()
+				if strings.HasPrefix(ts, "sync.") || strings.HasPrefix(ts, "sync/atomic.") {
+					continue
+				}
+				readByGuard := false
+				for _, r := range c.FieldRefs(ct, f.Name()) {
+					if r.Fn == isUsed {
+						readByGuard = true
+					}
+				}
+				if !readByGuard {
+					continue
+				}
+				maintained := false
+				for _, a := range mapFieldAccesses(c, ct, f.Name()) {
+					if a.Write && (a.Fn.Name() == "Commit" || a.Fn.Name() == "SetImmutableTree") {
+						maintained = true
+					}
+				}
+				for _, w := range c.FieldWrites(ct, f.Name()) {
+					if w.Fn.Name() == "Commit" || w.Fn.Name() == "SetImmutableTree" {
+						maintained = true
+					}
+				}
+				c.Check(maintained, "C21.marker", "Checks/guard-state/"+f.Name(), isUsed.Pos(), "field "+f.Name()+" read by IsCheckUsed is maintained by Commit",
+					"IsCheckUsed bases the once-only decision on field "+f.Name()+", which neither Commit nor SetImmutableTree ever writes: it can keep an answer derived from a previous tree (a cached `not used` survives the commit that records the redemption)")
 			}
 		}
 		c.Check(pers && treeRead, "C21.marker", "Checks/persisted", isUsed.Pos(), "used hashes are committed to the tree and IsCheckUsed falls back to the tree under the same hash", "used checks are not persisted or not read back under the check's hash")
